@@ -770,4 +770,74 @@ func (p c13) setValues(e *c13env) {
 			})
 		}
 	}
+	p.selectionOps(e, leafPaths)
+}
+
+// selectionOps: every operation of a selection on every kind of selection (root, container, list, entry, leaf, leaf-list), also one
+// obtained with request parameters that hide part of what the payload names. Errors are fine, crashes are not.
+func (p c13) selectionOps(e *c13env, leafPaths []string) {
+	targets := []string{""}
+	for _, ap := range e.t.AllPaths() {
+		if plainKeys(ap) {
+			targets = append(targets, dp.PathString(ap))
+		}
+	}
+	if len(targets) > 12 {
+		e.c.Rand.Shuffle(len(targets)-1, func(i, j int) { targets[i+1], targets[j+1] = targets[j+1], targets[i+1] })
+		targets = targets[:12]
+	}
+	for i, lp := range leafPaths {
+		if i < 6 {
+			targets = append(targets, lp)
+		}
+	}
+	whole := dp.EncodeJSON(e.s, e.t, dp.JOpts{})
+	params := []string{"", "?depth=1", "?content=config", "?with-defaults=trim"}
+	for _, n := range e.s.TopData() {
+		params = append(params, "?fields="+n.Name, "?fc.xfields="+n.Name)
+		if len(params) > 8 {
+			break
+		}
+	}
+	ops := []string{"delete", "replace", "upsert", "insert", "update", "insert-into", "upsert-into"}
+	for _, tg := range targets {
+		for _, op := range ops {
+			for _, doc := range []string{"{}", whole} {
+				prm := params[e.c.Rand.Intn(len(params))]
+				tgt, oo, dd := tg, op, doc
+				kind := oo + "/" + prm
+				if dd == "{}" {
+					kind += "/empty-payload"
+				}
+				e.try("selection-op", kind, fmt.Sprintf("%s %q%s <- %s", oo, tgt, prm, head(dd, 300)), false, func() error {
+					sel, err := e.browser().Root().Find(tgt + prm)
+					if err != nil || sel == nil {
+						return err
+					}
+					if oo == "delete" {
+						return sel.Delete()
+					}
+					src, err := nodeutil.ReadJSON(dd)
+					if err != nil {
+						return err
+					}
+					switch oo {
+					case "replace":
+						return sel.ReplaceFrom(src)
+					case "upsert":
+						return sel.UpsertFrom(src)
+					case "insert":
+						return sel.InsertFrom(src)
+					case "update":
+						return sel.UpdateFrom(src)
+					case "insert-into":
+						return sel.InsertInto(dp.NewCapture(e.s).Node())
+					case "upsert-into":
+						return sel.UpsertInto(dp.NewCapture(e.s).Node())
+					}
+					return nil
+				})
+			}
+		}
+	}
 }
